@@ -96,6 +96,8 @@ class Decl:
         k = self.kind
         if k == "base":
             return set()
+        if k == "subclass":
+            return {"T:" + p["parent"]}
         if k == "derived":
             return {"T:" + n for n, _ in p["items"]}
         if k == "plain":
@@ -111,7 +113,7 @@ class Decl:
 
     def creates(self):
         p = self.p
-        if self.kind in ("base", "derived"):
+        if self.kind in ("base", "derived", "subclass"):
             out = {"T:" + p["name"]}
             if p.get("ref_eff"):
                 out.add("U:" + p["ref_eff"])
@@ -124,6 +126,12 @@ class Decl:
         if k == "base":
             return w.declare_base_type(p["name"], p.get("ref"),
                                        p.get("quantum"))
+        if k == "subclass":
+            # `class Span(Length): pass` is a new base type of its own,
+            # without reference unit and without units
+            if p["parent"] not in w.types:
+                raise KeyError(p["parent"])
+            return w.declare_base_type(p["name"])
         if k == "derived":
             t = w.declare_derived_type(p["name"], p["items"], p.get("ref"),
                                        p.get("quantum"))
@@ -184,6 +192,9 @@ class Decl:
     def steps(self, key):
         p = self.p
         k = self.kind
+        if k == "subclass":
+            return [{"cls": {"name": p["name"], "base": V(p["parent"]),
+                             "kw": {}}, "id": p["name"], "k": key}]
         if k in ("base", "derived"):
             kw = {}
             if p.get("ref") is not None:
@@ -219,14 +230,18 @@ class Decl:
 
 def random_plan(rng, money=False, max_base=4, max_derived=4, max_units=4,
                 aliases=True, noref=True, quanta=True, int_terms=True,
-                force_quantum=False):
+                force_quantum=False, power_type=False, subclasses=True):
     """A valid declaration plan (list of Decl in dependency order) and the
     resulting model."""
     w = World()
     plan = []
     names = NAMES[:]
     rng.shuffle(names)
-    letters = iter("abcdefghijklmnopqrstuvwxyz")
+    # symbols must not follow the declaration order (normal forms are
+    # ordered by registration index, symbols are free)
+    alphabet = list("abcdefghijklmnopqrstuvwxyz")
+    rng.shuffle(alphabet)
+    letters = iter(alphabet)
     tletter = {}
 
     def add(d):
@@ -262,9 +277,22 @@ def random_plan(rng, money=False, max_base=4, max_derived=4, max_units=4,
         qt = [t for t in w.types.values() if t.quantum is not None]
         if qt:
             name = names[-1]
-            L = "abcdefghijklmnopqrstuvwxyz"[len(tletter)]
+            L = alphabet[len(tletter)]
             if add(Decl("derived", name=name, items=[(qt[0].name, -1)],
                         ref=L + "0", form=rng.choice(["ops", "term"]))):
+                names.pop()
+                tletter[name] = L
+                next(letters)
+    if power_type:
+        # the square of a type, quantized: unit ** 2 and quantity ** 2 land
+        # on a grid that non-reference units do not fit
+        lin = [t for t in w.types.values() if t.has_ref]
+        if lin:
+            name = names[-1]
+            L = alphabet[len(tletter)]
+            if add(Decl("derived", name=name,
+                        items=[(rng.choice(lin).name, 2)], ref=L + "0",
+                        quantum=rng.choice(QUANTA), form="term")):
                 names.pop()
                 tletter[name] = L
                 next(letters)
@@ -275,7 +303,7 @@ def random_plan(rng, money=False, max_base=4, max_derived=4, max_units=4,
             items = [(rng.choice(tn), rng.choice([-2, -1, -1, 1, 1, 1, 2, 3]))
                      for _ in range(nf)]
             name = names[-1]
-            L = "abcdefghijklmnopqrstuvwxyz"[len(tletter)]
+            L = alphabet[len(tletter)]
             d = Decl("derived", name=name, items=items,
                      ref=(L + "0") if rng.random() < 0.7 else None,
                      form=rng.choice(["ops", "term"]),
@@ -294,6 +322,10 @@ def random_plan(rng, money=False, max_base=4, max_derived=4, max_units=4,
                 tletter[name] = L
                 next(letters)
                 break
+    if subclasses and rng.random() < 0.25:
+        name = names.pop()
+        add(Decl("subclass", name=name,
+                 parent=rng.choice(list(w.types))))
     # units
     counter = {}
 
@@ -323,12 +355,14 @@ def random_plan(rng, money=False, max_base=4, max_derived=4, max_units=4,
 
     for tname in list(w.types):
         t = w.types[tname]
+        if tname not in tletter:
+            continue            # subclasses stay empty
         if t.has_ref:
             for _ in range(rng.randint(0, max_units)):
                 sym = newsym(tname)
                 mine = [u.sym for u in w.units_of(tname)]
                 form = rng.choice(["scaled", "scaled", "term", "term2",
-                                   "derive"])
+                                   "derive", "term3"])
                 k = rand_factor()
                 kk = None
                 if k.denominator == 1 and int_terms and rng.random() < 0.5:
@@ -350,6 +384,36 @@ def random_plan(rng, money=False, max_base=4, max_derived=4, max_units=4,
                     for n, e in t.defn:
                         items.append((("u", rng.choice(
                             [u.sym for u in w.units_of(n)])), e))
+                    rng.shuffle(items)
+                    add(Decl("term", t=tname, sym=sym, kkind=kk, items=items))
+                elif form == "term3":
+                    # a long term: the type's own units with one exponent
+                    # split over two different (convertible) units, and / or
+                    # a pair of convertible units of another type that
+                    # cancels dimensionally
+                    items = []
+                    if t.base:
+                        items.append((("u", rng.choice(mine)), 1))
+                    else:
+                        for n, e in t.defn:
+                            us = [u.sym for u in w.units_of(n)]
+                            if abs(e) >= 2 and len(us) >= 2:
+                                sgn = 1 if e > 0 else -1
+                                items.append((("u", rng.choice(us)), sgn))
+                                items.append((("u", rng.choice(us)),
+                                              e - sgn))
+                            else:
+                                items.append((("u", rng.choice(us)), e))
+                    lin = [x for x in w.types.values()
+                           if x.has_ref and len(w.units_of(x.name)) >= 2]
+                    if lin and rng.random() < 0.8:
+                        x = rng.choice(lin)
+                        us = [u.sym for u in w.units_of(x.name)]
+                        ex = rng.choice([1, 2, -1, -2])
+                        items.append((("u", rng.choice(us)), ex))
+                        items.append((("u", rng.choice(us)), -ex))
+                    if rng.random() < 0.5:
+                        items.append((("n", k), rng.choice([1, -1])))
                     rng.shuffle(items)
                     add(Decl("term", t=tname, sym=sym, kkind=kk, items=items))
                 elif not t.base:
